@@ -172,10 +172,10 @@ def match_sites(families, sites, entries, consolidate=False):
     groups = {}
     for k, s in left:
         fnpart, kw, _ = kind_what(k)
-        groups.setdefault((families.root(fnpart), kw_class(kw)), []).append(k)
+        groups.setdefault((families.root(fnpart), kw), []).append(k)     # the exact kind/what: without an equal snippet, `str` and `[u8]` indexing must not stand for each other
     for (root, kwc), ks in sorted(groups.items()):
         left_keys = {k for k, _ in left}
-        cands = sorted((ek for ek in by_root.get(root, []) if ek not in used and ek not in left_keys and kw_class(kind_what(ek)[1]) == kwc),
+        cands = sorted((ek for ek in by_root.get(root, []) if ek not in used and ek not in left_keys and kind_what(ek)[1] == kwc),
                        key=lambda ek: (kind_what(ek)[0], kind_what(ek)[2]))
         if cands and len(cands) == len(ks):
             for k, ek in zip(sorted(ks, key=lambda kk: (kind_what(kk)[0], kind_what(kk)[2])), cands):
